@@ -283,7 +283,7 @@ SKIP_REMAINDER = '''
 @fn skip_remainder
 @header pub
 @ret r
-@rewrite /&mut buf\\[\\.\\.rem\\]/ => slice_prefix_mut(&mut buf, rem)
+@rewrite? /&mut buf\\[\\.\\.rem\\]/ => slice_prefix_mut(&mut buf, rem)
 @spec
         requires
             rem <= 8,
@@ -384,7 +384,6 @@ MORE = r"""
 @ctx impl<D, S, BD> StatefulDecode for StatefulDecoder<D, S, BD>
 @header pub
 @ret r
-@rewrite /std::io::copy\(&mut self\.from\.by_ref\(\)\.take\(length\), &mut out\)/ => self.from.copy_take(length)
 @rewrite /W: std::io::Write,/ => W: Sized,
 @rewrite? /Err\(std::io::Error::from\(std::io::ErrorKind::UnexpectedEof\)\)/ => Err::<(), IoError>(IoError { code: 0 })
 @rewrite /Self: Sized,/ => 
@@ -401,7 +400,6 @@ MORE = r"""
 @ctx impl<D, S, BD> StatefulDecode for StatefulDecoder<D, S, BD>
 @header pub
 @ret r
-@rewrite /(?s)std::io::copy\(\s*&mut self\.from\.by_ref\(\)\.take\(u64::from\(length\)\),\s*&mut std::io::sink\(\),\s*\)/ => self.from.copy_take(u64::from(length))
 @rewrite? /Err\(std::io::Error::from\(std::io::ErrorKind::UnexpectedEof\)\)/ => Err::<(), IoError>(IoError { code: 0 })
 @spec
         requires
